@@ -2,6 +2,7 @@ package ctl
 
 import (
 	"encoding/json"
+	"strconv"
 	"strings"
 )
 
@@ -217,3 +218,61 @@ type Boxer interface{ Len() int }
 type box struct{ n int }
 
 func (b *box) Len() int { return b.n }
+
+// ---- E7: method-keyed maps, dotted suffix; E5 key identity
+
+type Method struct {
+	Name  string
+	Line  int
+	Col   int
+	Calls []string
+}
+type Type struct {
+	Name      string
+	Functions []Method
+}
+
+func CalleesBad(types []Type) map[string][]string {
+	out := map[string][]string{}
+	for _, t := range types {
+		for _, m := range t.Functions {
+			out[t.Name+"."+m.Name] = m.Calls
+		}
+	}
+	return out
+}
+
+func CalleesGood(types []Type) map[string][]string {
+	out := map[string][]string{}
+	for _, t := range types {
+		for _, m := range t.Functions {
+			out[t.Name+"."+m.Name] = append(out[t.Name+"."+m.Name], m.Calls...)
+		}
+	}
+	return out
+}
+
+var imports []string
+
+func ResolveBad(simple string) string {
+	for _, imp := range imports {
+		if strings.HasSuffix(imp, simple) {
+			return imp
+		}
+	}
+	return ""
+}
+
+func ResolveGood(simple string) string {
+	for _, imp := range imports {
+		if strings.HasSuffix(imp, "."+simple) {
+			return imp
+		}
+	}
+	return ""
+}
+
+func KeyBad(m Method) string  { return m.Name + ":" + itoa(m.Line) }
+func KeyGood(m Method) string { return m.Name + ":" + itoa(m.Line) + ":" + itoa(m.Col) }
+
+func itoa(i int) string { return strconv.Itoa(i) }
